@@ -14,7 +14,7 @@
      K11_setref         set_reference_target: DEST and the referrer map are updated before the text write that fails. *)
 From AV Require Import Base.Bytes Base.Outcome Hash.HashModel Tree.Heap Tree.Ops Tree.Script Tree.Inv Tree.InvProofs
   Tree.Index Tree.Observe Tree.Fail Tree.FailProofs Tree.FailProofsInv Tree.FailWitness Tree.FailTables Tree.FailRepair Spec.SpecReal.
-From AV Require Import Tree.Sort Tree.Copy Tree.Load Tree.Compat Tree.Serialize Tree.Script2 Tree.Fail2 Tree.FailProofsOp2.
+From AV Require Import Tree.Sort Tree.Copy Tree.Load Tree.Compat Tree.Serialize Tree.Script2 Tree.Fail2 Tree.FailProofsOp2 Tree.FailResidue.
 From AV Require Xml.Parser.
 Open Scope list_scope.
 Open Scope N_scope.
@@ -146,3 +146,66 @@ Theorem C11_all_ops :
   (exists o1, o = Op1 o1 /\ K11_setref T tab_el tab_en check_fn LATEST root_attrs w o1 = true) \/
   (exists m buffer filename strict, o = OpLoad m buffer filename strict /\ e = InvalidFileMerge).
 Proof. exact C11_all_ops. Qed.
+
+(* ====================================================================== the residue of the Known11 classes, by theorem *)
+
+(* [U] K11_move_noname / K11_move_refwrite: a move_element_here that returns an error has either changed nothing, or
+   (the error is one of the two late ones and) the world differs from the old one as follows: the moved element carries the
+   parent link of the DESTINATION and no other parent link changed; w_next and the files are the same; no node gained a
+   child and NO node lists the moved element any more - neither its former parent nor the destination: the element is
+   detached from the tree without being marked removed.  (Texts of referrers and the two maps of the model may be
+   partially updated: not characterised.) *)
+Theorem C11_move_residue :
+  forall (T : tables) (tab_en : nametab) (check_fn : N -> list N -> res bool) (LATEST : N)
+         (h mv : id) (w : world) (e : err) (w' : world),
+  Core w ->
+  e_move_element_here T tab_en check_fn LATEST h mv w = Val (ER e, w') ->
+  w' = w \/
+  ((e = ElementNotIdentifiable \/ e = IncorrectContentType) /\
+   exists src_parent,
+     parent_link w mv = Some (PElem src_parent) /\
+     (forall i, parent_link w' i = if i =? mv then Some (PElem h) else parent_link w i) /\
+     w_next w' = w_next w /\ w_files w' = w_files w /\
+     (forall p n' c, w_nodes w' p = Some n' -> In (CElem c) (n_content n') ->
+                     exists n, w_nodes w p = Some n /\ In (CElem c) (n_content n)) /\
+     (forall p n', w_nodes w' p = Some n' -> ~ In (CElem mv) (n_content n'))).
+Proof. exact move_here_residue. Qed.
+
+Theorem C11_move_at_residue :
+  forall (T : tables) (tab_en : nametab) (check_fn : N -> list N -> res bool) (LATEST : N)
+         (h mv : id) (pos : N) (w : world) (e : err) (w' : world),
+  Core w ->
+  e_move_element_here_at T tab_en check_fn LATEST h mv pos w = Val (ER e, w') ->
+  w' = w \/
+  ((e = ElementNotIdentifiable \/ e = IncorrectContentType) /\
+   exists src_parent,
+     parent_link w mv = Some (PElem src_parent) /\
+     (forall i, parent_link w' i = if i =? mv then Some (PElem h) else parent_link w i) /\
+     w_next w' = w_next w /\ w_files w' = w_files w /\
+     (forall p n' c, w_nodes w' p = Some n' -> In (CElem c) (n_content n') ->
+                     exists n, w_nodes w p = Some n /\ In (CElem c) (n_content n)) /\
+     (forall p n', w_nodes w' p = Some n' -> ~ In (CElem mv) (n_content n'))).
+Proof. exact move_here_at_residue. Qed.
+
+(* [U] K11_setref: a set_reference_target that returns an error has either changed nothing, or the error is
+   IncorrectContentType and the world differs from the old one in exactly two places: the attribute list of the reference
+   element (DEST written: dest_written) and the referrer map of its model (the element taken from the list of its old text
+   and appended to the list of the new path: setref_origins = the function of the code); the element's text and content,
+   every other node, w_next, the files, every other model and this model's root, file list and path index are the same. *)
+Theorem C11_setref_residue :
+  forall (T : tables) (tab_el tab_en : nametab) (check_fn : N -> list N -> res bool) (LATEST : N)
+         (h target : id) (w : world) (e : err) (w' : world),
+  e_set_reference_target T tab_el tab_en check_fn LATEST h target w = Val (ER e, w') ->
+  w' = w \/
+  (e = IncorrectContentType /\
+   exists nh item m new_ref cd,
+     w_nodes w h = Some nh /\ model_of h w = Val (OK m, w) /\ path_id T target w = Val (OK new_ref, w) /\
+     character_data T nh = Val cd /\
+     w_nodes w' h = Some (set_attrs nh (dest_written (attr_dest T) (DEnum item) (n_attrs nh))) /\
+     (forall i, i <> h -> w_nodes w' i = w_nodes w i) /\
+     w_next w' = w_next w /\ w_files w' = w_files w /\
+     (forall j, j <> N.to_nat m -> nth_opt (w_models w') j = nth_opt (w_models w) j) /\
+     (forall x, nth_opt (w_models w) (N.to_nat m) = Some x ->
+        exists x', nth_opt (w_models w') (N.to_nat m) = Some x' /\ m_root x' = m_root x /\ m_files x' = m_files x /\
+                   m_idents x' = m_idents x /\ m_origins x' = setref_origins cd new_ref h (m_origins x))).
+Proof. exact setref_residue. Qed.
